@@ -522,20 +522,32 @@ def flushRec (recs : List (Bytes × SRec)) (c : Content) (k : Bytes) : Content :
   | some r => cput c k (enc (srecItem r))
   | none => c
 
-/-- IntermediateRoot: Finalise, then write pending accounts, dirty validators, index, statistics, withdraw
-queue, dirty staking records and (when dirty) the pending relationships into the three tries -/
-def iroot (P : Prim) (del : Bool) (s : St) : St :=
-  let s := finalise del s
-  let s := { s with t := { s.t with acct := s.acctP.foldl (flushAcct P s.accts) s.t.acct }, acctP := [] }
-  let s := s.valD.foldl (flushVal del) s
-  let s := { s with valD := [] }
-  let s := { s with t := { s.t with val := { s.t.val with index := enc (bytesListItem (sortKeys s.index)),
-                                                           stat := enc (statItem s.stat),
-                                                           queue := enc (queueItem s.queue) } } }
-  let s := { s with t := { s.t with stk := { s.t.stk with recs := s.recD.foldl (flushRec s.recs) s.t.stk.recs } }, recD := [] }
+/-- pending accounts written to (deleted from) the account trie -/
+def flushAccts (P : Prim) (s : St) : St :=
+  { s with t := { s.t with acct := s.acctP.foldl (flushAcct P s.accts) s.t.acct }, acctP := [] }
+
+/-- dirty validators written to (deleted from) the validator trie -/
+def flushVals (del : Bool) (s : St) : St := { s.valD.foldl (flushVal del) s with valD := [] }
+
+/-- saveValidatorsIndex / saveValidatorsStat / saveWithdrawQueue: always rewritten -/
+def saveSingles (s : St) : St :=
+  { s with t := { s.t with val := { s.t.val with index := enc (bytesListItem (sortKeys s.index)),
+                                                   stat := enc (statItem s.stat),
+                                                   queue := enc (queueItem s.queue) } } }
+
+/-- updateStakingTrie: dirty records, then the pending relationships when dirty -/
+def flushRecs (s : St) : St :=
+  { s with t := { s.t with stk := { s.t.stk with recs := s.recD.foldl (flushRec s.recs) s.t.stk.recs } }, recD := [] }
+
+def flushRelats (s : St) : St :=
   if s.relatsDirty then
     { s with t := { s.t with stk := { s.t.stk with relats := enc (bytesListItem s.relats) } }, relatsDirty := false }
   else s
+
+/-- IntermediateRoot: Finalise, then write pending accounts, dirty validators, index, statistics, withdraw
+queue, dirty staking records and (when dirty) the pending relationships into the three tries -/
+def iroot (P : Prim) (del : Bool) (s : St) : St :=
+  flushRelats (flushRecs (saveSingles (flushVals del (flushAccts P (finalise del s)))))
 
 def roots (P : Prim) (s : St) : Roots := rootsOf P s.t
 
